@@ -640,13 +640,14 @@ unsigned cmb_random_loaded_dice(const unsigned n, const double *pa)
     const double x = cmb_random();
     double q = 0.0;
     unsigned ui;
-    for (ui = 0; ui < n; ui++) {
+    for (ui = 0; ui < n - 1u; ui++) {
         q += pa[ui];
         if (x < q) {
             break;
         }
     }
 
+    /* The last outcome takes whatever probability mass remains */
     cmb_assert_debug(ui < n);
     return ui;
 }
